@@ -143,7 +143,7 @@ func c17GenManifest(r *rand.Rand, malformed bool) c17Doc {
 			d.m[d.bk] = map[string]any{"bad": []any{1, nil, []any{1}, map[string]any{"x": 1}, true, 1.5}[r.Intn(6)]}
 			d.loadOK = false
 		case 4:
-			d.m[d.bk] = map[string]any{"bad": "!!!not base64"}
+			d.m[d.bk] = map[string]any{"bad": []string{"!!!not base64", "YQ=", "YQ", "YWJj=", "YQ==YQ==", "=", "Y", "YWI", "YQ=\n"}[r.Intn(9)]} // (also text that ends inside its padding)
 			d.loadOK = false
 		default:
 			d.m[d.bk] = "not a map"
@@ -475,6 +475,16 @@ func c17Embedded(r *rand.Rand, idx int, format int) Case {
 			if got := nodeToAny(cb); !reflect.DeepEqual(got, any(map[string]any{"app": map[string]any{"name": "n", "port": "80",
 				"rules": []any{map[string]any{"match": "m0", "act": "allow"}, map[string]any{"match": "m1"}}}, "db": map[string]any{"host": "h"}})) {
 				fail = append(fail, fmt.Sprintf("the properties document opened from the manifest is not the tree of its items: %v", got))
+			}
+		}
+		// an editing session may save in between: the document handle obtained BEFORE the first Save stays the document — what is
+		// edited through it afterwards is what the next Save writes
+		if r.Intn(2) == 0 {
+			cb.AddValue("first-session", dom.LeafNode("1"))
+			edits = append(edits, "AddValue first-session=1; Save")
+			if err := doc.Save(); err != nil {
+				fail = append(fail, "first Save failed: "+err.Error())
+				return
 			}
 		}
 		for i, n := 0, 1+r.Intn(6); i < n; i++ {
